@@ -12,6 +12,11 @@ def hook_commits():
         return []
 
 CHECKS = {
+ "C20": dict(
+    category="exploration", design_ref="DESIGN.md §4 C20",
+    technique="reference fold of applied events compared with get responses, Value(), raw stored bytes, listener arguments and query collection results after every event; close/reopen comparison",
+    text="Random sequences of 25 events (change with set/delete/no-op keys, add, remove, create, delete; applicable or not) on three resources of a real Service using middleware.BadgerDB and resbadger.Model/Collection (model/collection, with/without default) and a typed resbadger.Model with an index set and a query collection, over a real Badger database: after every event the get response and Value() must equal the reference fold over the initial/default value, listener OldValues / delete Data must equal the previous stored values, inapplicable events (index out of range, create on existing or with default, change/remove on missing without default) must publish nothing and leave the stored bytes identical, index listeners must be called exactly when the key changes and 7 query-collection queries (prefix, reverse, limit, offset) must equal a reference scan; finally the database is closed and reopened under a new service and compared again.",
+    note="Delete on a missing resource is outside the statement and not asserted; values are JSON-stable Go values."),
  "C18": dict(
     category="exploration", design_ref="DESIGN.md §4 C18",
     technique="round-trip and differential monitors against encoding/json generic decoding; reference RES-value classifier; algebraic checks of Value.Equal; client-side parsing of responses recorded from a real service",
